@@ -54,6 +54,14 @@ def plan(seed, subbatch):
                      and (tf is None or (tf_s % tf_seconds(t) == 0 and tf_seconds(t) < tf_s))]
             if cands:
                 hexcfg["timeframe"] = lv.choice(cands)
+    fx = sub_rng(seed, "features")
+    if tf and fx.random() < 0.15:
+        # gap filling next to the maintenance operations (not under a Hexital-level timeframe: members derived
+        # from filled level candles at construction are the known C08 finding)
+        if kind == "indicator":
+            members[0]["common"]["timeframe_fill"] = True
+        elif not hexcfg.get("timeframe"):
+            hexcfg["timeframe_fill"] = True
     n = planlib.pick_n(cfg, (3, 15), (10, 60), (30, 150))
     if subbatch == "calm":
         faults, burst = {}, None
